@@ -1,6 +1,7 @@
 package main
 
 import (
+	"bytes"
 	"encoding/json"
 	"flag"
 	"fmt"
@@ -14,10 +15,39 @@ func die(format string, a ...interface{}) {
 	os.Exit(2)
 }
 
+// denull replaces JSON nulls (nil slices) by empty arrays: TLC's Json module cannot read null.
+func denull(v interface{}) interface{} {
+	switch x := v.(type) {
+	case nil:
+		return []interface{}{}
+	case []interface{}:
+		for i := range x {
+			x[i] = denull(x[i])
+		}
+		return x
+	case map[string]interface{}:
+		for k := range x {
+			x[k] = denull(x[k])
+		}
+		return x
+	}
+	return v
+}
+
 func writeJSON(path string, v interface{}) {
 	b, err := json.Marshal(v)
 	if err != nil {
 		die("marshal %s: %v", path, err)
+	}
+	if bytes.Contains(b, []byte("null")) {
+		var g interface{}
+		dec := json.NewDecoder(bytes.NewReader(b))
+		dec.UseNumber()
+		if err := dec.Decode(&g); err == nil {
+			if b2, err := json.Marshal(denull(g)); err == nil {
+				b = b2
+			}
+		}
 	}
 	if err := os.WriteFile(path, b, 0644); err != nil {
 		die("write %s: %v", path, err)
@@ -36,10 +66,11 @@ func readJSON(path string, v interface{}) {
 
 // Population flags shared by several subcommands.
 type popFlags struct {
-	seed                                  int64
-	smallMax, smallSlice, smallSlices     int
+	seed                                                         int64
+	smallMax, smallSlice, smallSlices                            int
 	nrand, ndp, nctx, nexpr, nplanted, nfeat, nlong, nbig, nring int
-	corpus                                string
+	corpus                                                       string
+	featctrl                                                     bool
 }
 
 func (p *popFlags) register(fs *flag.FlagSet) {
@@ -56,6 +87,7 @@ func (p *popFlags) register(fs *flag.FlagSet) {
 	fs.IntVar(&p.nlong, "nlong", 0, "grammars with long right-hand sides")
 	fs.IntVar(&p.nbig, "nbig", 0, "large grammars (100-300 states)")
 	fs.IntVar(&p.nring, "nring", 0, "mutually right-recursive rings (includes-SCCs)")
+	fs.BoolVar(&p.featctrl, "featctrl", false, "surface-feature grammars may use tab / line feed as character literals")
 	fs.StringVar(&p.corpus, "corpus", "", "corpus directory")
 }
 
@@ -94,7 +126,7 @@ func (p *popFlags) cases() []*Case {
 		res = append(res, GenLong(r, fmt.Sprintf("long-%d-%d", p.seed, i)))
 	}
 	for i := 0; i < p.nfeat; i++ {
-		res = append(res, GenFeature(r, fmt.Sprintf("feat-%d-%d", p.seed, i)))
+		res = append(res, GenFeature(r, fmt.Sprintf("feat-%d-%d", p.seed, i), p.featctrl))
 	}
 	for i := 0; i < p.nplanted; i++ {
 		k := randKnobs(r)
